@@ -141,6 +141,13 @@ def handleBurrow (toks : List String) : String :=
   | some e => toSexpr (burrow (fun op args => .app op args) (exprSize e + 1) e)
   | none => "bad-op"
 
+/-- `cmp <lhs> | <rhs>` : is `lhs ⇒ rhs` a rewrite of a bit-vector (dis)equality with the same per-bit atoms? -/
+def handleCmp (toks : List String) : String :=
+  let (pre, post) := toks.span (· ≠ "|")
+  match parseExpr pre, parseExpr (post.drop 1) with
+  | some lhs, some rhs => if cmpEquiv lhs rhs then "1" else "0"
+  | _, _ => "bad-op"
+
 /-- `meta <sexpr>` : width / variables / depth / symbolic as the model computes them -/
 def handleMeta (toks : List String) : String :=
   match parseExpr toks with
